@@ -110,6 +110,40 @@ func runHashHistories(cfg *vh.Config, r *vh.Rand, res *vh.Result, cf *vh.CasesFi
 	}
 }
 
+// runNew: New() / NewString() (uuid v7 through github.com/google/uuid; not modelled: any 16 bytes are inside C20_full) —
+// the identifiers the package itself mints render to the published shape and parse back, and the rendering goes to
+// Coq as an ordinary CRender case (model render of the same 16 bytes).
+func runNew(cfg *vh.Config, res *vh.Result, cf *vh.CasesFile, caseNo *int) {
+	n := cfg.Scale(40, 400)
+	seen := map[id62.UUID]bool{}
+	for i := 0; i < n; i++ {
+		id := id62.New()
+		s, pan := safeString(id)
+		res.Count("new")
+		in := fmt.Sprintf("id62.New() = %x", id[:])
+		if pan != nil || len(s) != 22 || !id62.Pattern.MatchString(s) {
+			res.Fail(vh.Failure{Case: *caseNo, Stream: "new", Sig: "C20 identifier minted by New() does not render to 22 characters of the published pattern",
+				Clause: "renders to exactly 22 characters matching the published ID62 pattern", Input: in, Got: fmt.Sprintf("%q panic=%v", s, pan)})
+		} else if back, err, pan2 := safeParse(s); err != nil || pan2 != nil || back != id {
+			res.Fail(vh.Failure{Case: *caseNo, Stream: "new", Sig: "C20 identifier minted by New() does not parse back", Clause: "parse(render(id)) = id", Input: in,
+				Got: fmt.Sprintf("s=%q back=%x err=%v panic=%v", s, back[:], err, pan2)})
+		}
+		if seen[id] {
+			res.Fail(vh.Failure{Case: *caseNo, Stream: "new", Sig: "C20 New() returned the same identifier twice", Clause: "distinct identifiers", Input: in, Got: "duplicate"})
+		}
+		seen[id] = true
+		if pan == nil && i < 20 {
+			cf.Terms = append(cf.Terms, fmt.Sprintf("CRender %s %s %s", vh.NList(id[:]), vh.BytesTerm(s), vh.BoolTerm(id62.Pattern.MatchString(s))))
+			res.Cases = append(res.Cases, vh.CaseRec{Case: *caseNo, Stream: "new", Input: in, Impl: s})
+		}
+		*caseNo++
+	}
+	if s := id62.NewString(); len(s) != 22 || !id62.Pattern.MatchString(s) {
+		res.Fail(vh.Failure{Case: *caseNo, Stream: "new", Sig: "C20 NewString() is not 22 characters of the published pattern",
+			Clause: "renders to exactly 22 characters matching the published ID62 pattern", Input: "id62.NewString()", Got: s})
+	}
+}
+
 // runHashConcurrent: NewHash called by several goroutines at overlapping times, each on its own tuples; every result must
 // be SHA-1 of the caller's own concatenation (a shared hasher or digest buffer shows up as another caller's id or a torn mix).
 func runHashConcurrent(cfg *vh.Config, r *vh.Rand, res *vh.Result, distinct vh.Distinct, caseNo *int) {
